@@ -37,5 +37,18 @@ out.append("| property | theorems audited | cases (last run) | distinct non-triv
 for f in sorted(glob.glob(f"{root}/evidence/C*.json")):
     e = json.load(open(f)); c = e["coverage"]
     out.append(f"| {e['property_id']} | {c.get('discharged')}/{c.get('obligations')} | {c.get('evaluations')} | {c.get('distinct_nontrivial')} | {e['tier']} | {e['wall_s']} |")
+out.append("\n## 4. As-built summary per property (from tools/manifest_src.json and lean/IrVerif/Audit)\n")
+import re
+ms = json.load(open(f"{root}/tools/manifest_src.json"))["claimed"]
+for pid in sorted(ms):
+    thms = []
+    a = f"{root}/lean/IrVerif/Audit/{pid}.lean"
+    if os.path.exists(a):
+        thms = [m.group(1).split(".")[-1] for m in re.finditer(r"#print axioms (\S+)", open(a).read())]
+    out.append(f"### {pid}\n")
+    out.append("**What is proved / checked:** " + ms[pid]["text"] + "\n")
+    out.append("**Trusted base, hypotheses, differential-only parts:** " + ms[pid]["note"] + "\n")
+    out.append("**Technique:** " + ms[pid]["technique"] + "\n")
+    out.append(f"**Theorems audited ({len(thms)}):** " + ", ".join(f"`{t}`" for t in thms) + "\n")
 open(f"{root}/DESIGN-tables.md", "w").write("\n".join(out) + "\n")
 print("written DESIGN-tables.md")
